@@ -342,6 +342,10 @@ func main() {
 	for _, c := range closeCases(cap, thorough || fl.Search) {
 		r.eval(c)
 	}
+	// 2c. the queue's loop held around its wake-up
+	for _, c := range loopCases(thorough || fl.Search) {
+		r.eval(c)
+	}
 	res.Exhaustive = true // over (hook point, subscriber position) x operation list of forcedCases / closeCases
 	// 3. random histories
 	n := 250
